@@ -268,6 +268,25 @@ def reset_process_state(kernel=None):
 
     if _STATE_SNAPSHOT is None:
         _STATE_SNAPSHOT = _snapshot_module_state()
+    # memoised functions (functools.lru_cache / cache) of the modules under test are process-global state too: every real
+    # process starts with empty caches, so every run does
+    for mn in _STATE_MODULES:
+        mod = _sys.modules.get(mn)
+        if mod is None:
+            continue
+        for val in list(vars(mod).values()):
+            targets = [val]
+            if isinstance(val, type) and getattr(val, "__module__", None) == mn:
+                targets += [getattr(v_, "__func__", v_) for v_ in vars(val).values()]
+            for t_ in targets:
+                cc = getattr(t_, "cache_clear", None)
+                if callable(cc):
+                    try:
+                        cc()
+                        if kernel is not None:
+                            kernel.counters["memo_cache_cleared"] += 1
+                    except Exception:  # noqa: BLE001
+                        pass
     for (mn, name), val in _STATE_SNAPSHOT.items():
         cur = getattr(_sys.modules[mn], name, None)
         if type(cur) is type(val) and cur != val:
